@@ -53,7 +53,7 @@ func vMDApiStrs(w []int64) ([]string, []int64, bool) {
 	}
 	n := int(w[0])
 	w = w[1:]
-	out := make([]string, 0, n)
+	out := make([]string, 0, n+2) // spare capacity, as slices built by Pairs/Append have
 	for i := 0; i < n; i++ {
 		if len(w) == 0 || w[0] < 0 || int(w[0]) > len(w)-1 {
 			return nil, nil, false
@@ -151,13 +151,47 @@ func vMDApiEq(a, b []int64) bool {
 }
 
 // vMDApiShared: does some non-empty value slice of a start where one of b starts?
+// vMDApiOverlap: do the backing arrays (including spare capacity) of x and y overlap?
+func vMDApiOverlap(x, y []string) bool {
+	if cap(x) == 0 || cap(y) == 0 {
+		return false
+	}
+	sz := unsafe.Sizeof("")
+	x0 := uintptr(unsafe.Pointer(unsafe.SliceData(x)))
+	y0 := uintptr(unsafe.Pointer(unsafe.SliceData(y)))
+	return x0 < y0+uintptr(cap(y))*sz && y0 < x0+uintptr(cap(x))*sz
+}
+
+// vMDApiShared: is the result a anything but a deep copy?  True if a value slice of a shares
+// backing storage (spare capacity included) with a value slice of the stored MD b or with
+// another value slice of a, or if appending to one key of a changes the values of another
+// key of a.  (a is modified by the appends.)
 func vMDApiShared(a, b metadata.MD) bool {
-	for _, x := range a {
-		if len(x) == 0 {
-			continue
-		}
+	ks := make([]string, 0, len(a))
+	for k := range a {
+		ks = append(ks, k)
+	}
+	sort.Strings(ks)
+	for i, k := range ks {
 		for _, y := range b {
-			if len(y) > 0 && unsafe.SliceData(x) == unsafe.SliceData(y) {
+			if vMDApiOverlap(a[k], y) {
+				return true
+			}
+		}
+		for _, k2 := range ks[i+1:] {
+			if vMDApiOverlap(a[k], a[k2]) {
+				return true
+			}
+		}
+	}
+	snap := map[string][]string{}
+	for _, k := range ks {
+		snap[k] = append([]string(nil), a[k]...)
+	}
+	for _, k := range ks {
+		a[k] = append(a[k], "!!")
+		for _, k2 := range ks {
+			if n := len(snap[k2]); len(a[k2]) < n || !vMDApiStrsEq(a[k2][:n], snap[k2]) {
 				return true
 			}
 		}
@@ -224,7 +258,6 @@ func vMDApiCollides(md metadata.MD) bool {
 	}
 	return false
 }
-
 
 const vMDApiTries = 400
 
@@ -598,6 +631,13 @@ func vMDApiGen(r *vRand, tier string, idx int) ([]int64, [][]int64) {
 		return nil, [][]int64{vCat([]int64{5}, vMDApiEncMD(coll)), {6}}
 	case 3:
 		return nil, [][]int64{vCat([]int64{5}, vMDApiEncMD(coll)), vCat([]int64{7}, vMDApiS("K"))}
+	case 5: // base value list with spare capacity, key also appended, lookups and re-reads
+		k3 := []vMDApiEntry{{"k", []string{"1", "2", "3"}}, {"j", []string{"a"}}}
+		return nil, [][]int64{vCat([]int64{1}, vMDApiEncMD(k3)), vCat([]int64{2}, vMDApiEncKVs([]string{"K", "4"})),
+			vCat([]int64{4}, vMDApiS("k")), vCat([]int64{4}, vMDApiS("K")), {3}, vCat([]int64{2}, vMDApiEncKVs([]string{"k", "5", "J", "b"})),
+			vCat([]int64{4}, vMDApiS("k")), vCat([]int64{4}, vMDApiS("j")), {3}, vCat([]int64{4}, vMDApiS("k")),
+			vCat([]int64{8}, vMDApiEncKVs([]string{"A", "1", "b", "2", "a", "3", "c", "4"})), {15}, {13}, {15},
+			vCat([]int64{5}, vMDApiEncMD(k3)), {6}, vCat([]int64{7}, vMDApiS("K")), {6}}
 	case 4: // boundaries: empty context, empty MD, empty kv, empty key, empty values
 		ops = [][]int64{{3}, {6}, vCat([]int64{4}, vMDApiS("a")), vCat([]int64{7}, vMDApiS("a")),
 			vCat([]int64{2}, vMDApiEncKVs(nil)), {3},
@@ -616,7 +656,7 @@ func vMDApiGen(r *vRand, tier string, idx int) ([]int64, [][]int64) {
 		}
 		return nil, ops
 	}
-	collide := idx%8 == 5
+	collide := idx%8 == 7
 	n := 30 + r.Intn(20)
 	for i := 0; i < n; i++ {
 		switch c := r.Intn(100); {
